@@ -8,6 +8,7 @@ brand-new instances.
 """
 from __future__ import annotations
 
+import gc
 import itertools
 
 from mc import core, hist, pristine, obs as O
@@ -60,11 +61,11 @@ class ParserSpec:
         from pycparser.c_parser import CParser
         from pycparser.c_lexer import CLexer
 
-        self.name = "CParser" if variant == "real" else "control-parser"
+        self.name = {"real": "CParser", "drop": "CParser(ASTs dropped)"}.get(variant, "control-parser")
         self.variant = variant
         self.ops = [{"what": w, "text": t, "filename": f}
                     for (w, t) in PROGRAMS for f in FILENAMES]
-        if variant != "real":
+        if variant == "control":
             self.ops = [o for o in self.ops if o["what"] in CONTROL_PROGRAMS]
 
         class StickyLexer(CLexer):
@@ -75,7 +76,7 @@ class ParserSpec:
                     self._first = filename
                 super().input(text, self._first)
 
-        self._mk = (lambda: CParser()) if variant == "real" else (lambda: CParser(lexer=StickyLexer))
+        self._mk = (lambda: CParser(lexer=StickyLexer)) if variant == "control" else (lambda: CParser())
 
     def fresh(self):
         return self._mk()
@@ -83,6 +84,13 @@ class ParserSpec:
     def apply(self, obj, i):
         pristine.touch("CParser.parse")
         op = self.ops[i]
+        if self.variant == "drop":
+            # every AST is dropped before the next call (an id()-keyed cache in
+            # the parser would meet recycled addresses)
+            o, ast = O.parse_obs(obj, op["text"], op["filename"])
+            del ast
+            gc.collect()
+            return o, None
         return O.parse_obs(obj, op["text"], op["filename"])
 
     def invariants(self, obj, h, obs, keep):
@@ -315,6 +323,67 @@ class GenSpec:
         return []
 
 
+# (3b) one CGenerator, every operation on a FRESH AST that is dropped afterwards
+# (ids of dead nodes get recycled): struct / union / enum definitions of
+# different shapes at file scope, nested, and at block scope, built so that the
+# texts of one group allocate the same number of nodes
+FRESH_TEXTS = [
+    ("file:struct", "struct S { int a; char b; } v;"),
+    ("file:union", "union U { long c; short d; } v;"),
+    ("file:enum", "enum E { A, B } v;"),
+    ("file:struct-in-struct", "struct S { int a; struct { int x; } in; } v;"),
+    ("file:union-in-union", "union U { int a; union { long y; } in; } v;"),
+    ("file:enum-in-struct", "struct S { int z; enum { P, Q } e; } v;"),
+    ("block:struct", "void f(void){ struct S { int a; char b; } v; }"),
+    ("block:union", "void f(void){ union U { long c; short d; } v; }"),
+    ("block:enum", "void f(void){ enum E { A, B } v; }"),
+    ("block:union-in-struct", "void f(void){ struct S { int q; union { long y; } in; } v; }"),
+]
+
+
+class GenFreshSpec:
+    def __init__(self, reduce_parentheses=0):
+        from pycparser.c_parser import CParser
+        from pycparser.c_generator import CGenerator
+
+        self.name = "CGenerator(fresh ASTs)"
+        self.rp = bool(reduce_parentheses)
+        self._G, self._P = CGenerator, CParser
+        self.ops = [{"what": w, "text": t, "reduce_parentheses": self.rp} for w, t in FRESH_TEXTS]
+
+    def fresh(self):
+        return self._G(reduce_parentheses=self.rp)
+
+    def apply(self, obj, i):
+        pristine.touch("CParser.parse + CGenerator.visit")
+        ast = self._P().parse(self.ops[i]["text"], "fresh%d.c" % i)
+        o = O.visit_obs(obj, ast)
+        del ast
+        gc.collect()
+        return o, None
+
+    def invariants(self, obj, h, obs, keep):
+        if obs[-1][0] == "text" and obj.indent_level != 0:
+            return [("indent_level!=0", f"indent_level == {obj.indent_level} after a successful visit of {self.ops[h[-1]]['what']}")]
+        return []
+
+
+def gen_fresh_spec(rp=0):
+    return GenFreshSpec(rp)
+
+
+def long_rotations(n, reps):
+    """Fixed long histories over n operations: the identity order, its
+    reverse and two stride permutations, each repeated `reps` times."""
+    base = list(range(n))
+    perms = [base, base[::-1]]
+    for stride in (3, 7):
+        if n % stride == 0:
+            stride += 1
+        perms.append([(k * stride) % n for k in range(n)])
+    return [p * reps for p in perms]
+
+
 def gen_spec(rp=0):
     return GenSpec(rp)
 
@@ -322,7 +391,7 @@ def gen_spec(rp=0):
 # ---------------------------------------------------------------------------
 def parser_ops(variant="real"):
     ops = [{"what": w, "text": t, "filename": f} for (w, t) in PROGRAMS for f in FILENAMES]
-    if variant != "real":
+    if variant == "control":
         ops = [o for o in ops if o["what"] in CONTROL_PROGRAMS]
     return ops
 
@@ -347,6 +416,8 @@ def _left_behind_work(i):
 PREF = ("checks.c12", "parser_spec", ("real",))
 CREF = ("checks.c12", "parser_spec", ("control",))
 GREF = {rp: ("checks.c12", "gen_spec", (rp,)) for rp in (0, 1)}
+FREF = {rp: ("checks.c12", "gen_fresh_spec", (rp,)) for rp in (0, 1)}
+DREF = ("checks.c12", "parser_spec", ("drop",))
 
 
 def run(tier):
@@ -367,14 +438,17 @@ def run(tier):
     base = {}
     unstable = []
     for ref, n in [(PREF, NP), (CREF, len(parser_ops("control"))),
-                   (GREF[0], len(GEN_ASTS)), (GREF[1], len(GEN_ASTS))]:
+                   (GREF[0], len(GEN_ASTS)), (GREF[1], len(GEN_ASTS)),
+                   (FREF[0], len(FRESH_TEXTS)), (FREF[1], len(FRESH_TEXTS))]:
         base[ref], u = hist.baseline(ref, n)
         unstable += [(ref, i, a, b) for i, a, b in u]
     lex_exp, lex_unstable = lex_baseline()
     R.set("baselines_from_pristine_processes",
           sum(len(t) for t in base.values()) + len(lex_exp))
+    # a brand-new parser gives the same whether or not its AST is kept
+    base[DREF] = base[PREF]
     for ref, i, a, b in unstable:
-        nm = "CGenerator" if ref[1] == "gen_spec" else "CParser"
+        nm = "CGenerator" if ref[1].startswith("gen") else "CParser"
         R.fail(f"{nm}:fresh-instance-unstable:{O.obs_sig(a, b)}",
                {"spec": list(ref), "history": [i], "unstable": True},
                f"two pristine processes disagree on a brand-new instance: {O.obs_detail(a, b)}")
@@ -422,6 +496,20 @@ def run(tier):
     samples += [[pops[i]["what"] + "@" + pops[i]["filename"] for i in h]
                 for h in ((0, 4, 1), (7, 2), (12, 13, 12), (6, 0), (27, 26), (21, 5, 4))]
 
+    # (1b) the same parser histories with every AST dropped (and collected)
+    # before the next call, plus fixed long histories in pristine processes
+    ddepth = 2 if quick else 3
+    d = hist.explore(DREF, ddepth, base[DREF], plen=1 if quick else 2)
+    R.fail_many(d["fails"])
+    lf, lap = hist.long_histories(DREF, base[DREF], long_rotations(NP, 2))
+    R.fail_many(lf)
+    states |= {"P" + s for s in d["states"]}
+    transitions += d["applied"] + 2 * lap
+    traces += d["histories"] + 2 * len(long_rotations(NP, 2))
+    R.set("parser_histories_with_dropped_asts", d["histories"])
+    R.set("parser_long_histories", [len(h) for h in long_rotations(NP, 2)])
+    drop_hist = d["histories"]
+
     # (2) CLexer
     chain = 2 if quick else 3
     nt = len(LEX_TEXTS)
@@ -467,6 +555,24 @@ def run(tier):
                 or any(base[GREF[rp]][i][0] != "text" for i in range(ng)):
             R.fail("harness:generator-part-vacuous", {"part": "generator"},
                    f"ops={ng} distinct texts={g['expected_distinct']} kinds={g['outcome_kinds']}")
+    # (3b) fresh AST per visit, dropped afterwards; long rotations
+    nf = len(FRESH_TEXTS)
+    fresh_hist = 0
+    for rp in (0, 1):
+        g = hist.explore(FREF[rp], gdepth, base[FREF[rp]], plen=2)
+        R.fail_many(g["fails"])
+        rots = long_rotations(nf, 6) + long_rotations(nf, 3)
+        lf, lap = hist.long_histories(FREF[rp], base[FREF[rp]], rots)
+        R.fail_many(lf)
+        fresh_hist += g["histories"] + 2 * len(rots)
+        transitions += g["applied"] + 2 * lap
+        traces += g["histories"] + 2 * len(rots)
+        gen_states |= g["states"]
+        if g["expected_distinct"] < nf or any(base[FREF[rp]][i][0] != "text" for i in range(nf)):
+            R.fail("harness:generator-fresh-part-vacuous", {"part": "generator"},
+                   f"distinct texts={g['expected_distinct']}")
+    R.set("generator_fresh_ast_histories", fresh_hist)
+    R.set("generator_long_histories", [len(h) for h in long_rotations(nf, 6) + long_rotations(nf, 3)])
     states |= {"G" + s for s in gen_states}
     R.set("generator_operations", ng)
     R.set("generator_histories", gen_hist)
@@ -479,12 +585,14 @@ def run(tier):
     R.set("traces_validated_against_impl", traces)
     R.set("evaluations", traces + ctl["histories"])
     # non-trivial = histories of length >= 2 (the compared call really ran on a used object)
-    nontriv = (r["histories"] - NP) + lex_hist + (gen_hist - 2 * ng)
+    nontriv = (r["histories"] - NP) + (drop_hist - NP) + lex_hist + (gen_hist - 2 * ng) + (fresh_hist - 2 * nf)
     R.set("distinct_nontrivial", nontriv)
     R.set("distinct_outcomes", r["expected_distinct"])
     R.set("bounds", {"parser_sequences<=": depth, "parser_ops": NP,
                      "lexer_chain_inputs": chain, "lexer_texts": nt,
+                     "parser_sequences_with_dropped_asts<=": ddepth,
                      "generator_sequences<=": gdepth, "generator_asts": ng,
+                     "generator_fresh_ast_texts": nf,
                      "generator_variants": ["reduce_parentheses=False", "reduce_parentheses=True"]})
     R.assumptions += [
         f"histories consist of the listed operations only ({len(PROGRAMS)} programs x {len(FILENAMES)} file names; {nt} lexer texts; {ng} ASTs)",
@@ -574,6 +682,15 @@ def _replay(rep):
     h = tuple(c["history"])
     pre = tuple(c.get("prelude", ()))
     table, unstable = hist.baseline(ref, None, only=set(h) | set(pre))
+    if c.get("long"):
+        # address reuse depends on the allocation sequence: re-run the long
+        # history where it was found, in a pristine process
+        (res,) = pristine.pristine_map(hist._rotation_work, [(ref, table, list(h))], repeat=1)
+        digs, viol = res[0]
+        print(f"long history of {len(h)} operations over {ref}:")
+        for n, sig, detail in viol:
+            print(f"violation at event {n} (operation {h[n]}): {sig}: {detail}")
+        return 1 if viol else 0
     spec = hist.install_baseline(ref, table)
     if c.get("unstable"):
         for i, a, b in unstable:
